@@ -4649,7 +4649,9 @@ class PyCdlib:
         if child.inode is None:
             raise pycdlibexception.PyCdlibInternalError('Child file found without inode')
 
-        if child.inode.original_data_location != child.inode.DATA_ON_ORIGINAL_ISO:
+        if getattr(child.inode, 'orig_extent_loc', None) is None:
+            # Only Inodes that were parsed from the opened ISO have an
+            # original location (a file already modified in place keeps it).
             raise pycdlibexception.PyCdlibInvalidInput('Only a file that is stored on the opened ISO can be modified in place')
 
         child.inode.update_fp(fp, length)
